@@ -39,12 +39,31 @@ THEOREMS = [
     "IwModel.C01.compound_store_refines_map",
     "IwModel.C01.vnum_store_refines_map",
     "IwModel.C01.real_store_refines_map",
+    # the property as written: whole store (several databases, all put flavours, metadata) against the
+    # reference map of Model/KvApiSpec.lean
+    "IwModel.C01.api_put_refines",
+    "IwModel.C01.api_get_refines",
+    "IwModel.C01.api_getcopy_refines",
+    "IwModel.C01.api_del_refines",
+    "IwModel.C01.api_meta_refines",
+    "IwModel.C01.api_opendb_refines",
+    "IwModel.C01.api_destroydb_refines",
+    "IwModel.C01.api_step_refines",
+    "IwModel.C01.api_history_refines_from",
+    "IwModel.C01.api_history_refines",
+    "IwModel.C01.api_history_spec_sorted",
+    "IwModel.C01.spec_error_preserves",
+    "IwModel.C01.api_error_preserves_contents",
+    "IwModel.C01.spec_db_frame",
+    "IwModel.C01.api_db_frame",
 ]
 MANIFEST = dict(
     level="proof",
     text=("Lean 4 refinement theorems: the node-level model of iwkv (routing, add-to-upper, split at slot 17, node removal) "
-          "simulates the ordered-map spec for every history and every level choice, errors leave the state unchanged, databases are "
-          "framed; the model is tied to the code by replaying generated histories (all six key modes, 1-3 databases, WAL on/off, forced "
+          "simulates the ordered-map spec for every history and every level choice, and the whole API model (several databases of any "
+          "key mode, put plain/no-overwrite/increment/handler, get, get-copy, delete, metadata, db create/destroy) returns for every "
+          "history exactly the lines and contents of the reference map (api_history_refines, no hypothesis); errors leave every "
+          "database unchanged, databases are framed; the model is tied to the code by replaying generated histories (all six key modes, 1-3 databases, WAL on/off, forced "
           "skip-list levels, values up to 70 KB) through the public API and comparing every result, full dumps and node boundaries with "
           "the compiled Lean model and with an independent python reference map"),
     note=("trusted: Lean kernel, harness/generators, python reference; modelled not verified: C control flow of iwkv.c; byte-level "
